@@ -769,6 +769,8 @@ pub fn main(args: &crate::Args) {
     let mut cases: Vec<Case> = vec![];
     // corpus first
     let mut corpus_expect: Vec<(usize, String, String)> = vec![]; // (case idx, file, expected class)
+    // regression cases of repaired findings: (case idx, file, expected outcome line, finding id)
+    let mut corpus_expect_outcome: Vec<(usize, String, String, String)> = vec![];
     if let Some(dir) = args.opt("corpus") {
         let mut files: Vec<_> = std::fs::read_dir(&dir).map(|d| d.filter_map(|e| e.ok()).map(|e| e.path()).collect()).unwrap_or_default();
         files.sort();
@@ -782,6 +784,10 @@ pub fn main(args: &crate::Args) {
             let Some(mut c) = case_from(&v, &bases) else { continue };
             if let Some(e) = v.get("expect_class").and_then(Value::as_str) {
                 corpus_expect.push((cases.len(), f.file_name().unwrap().to_string_lossy().to_string(), e.to_string()));
+            }
+            if let Some(e) = v.get("expect_outcome").and_then(Value::as_str) {
+                let id = v.get("regression_of").and_then(Value::as_str).unwrap_or("").to_string();
+                corpus_expect_outcome.push((cases.len(), f.file_name().unwrap().to_string_lossy().to_string(), e.to_string(), id));
             }
             c.from_corpus = Some(f.file_name().unwrap().to_string_lossy().to_string());
             cases.push(c);
@@ -959,6 +965,7 @@ pub fn main(args: &crate::Args) {
     let mut unrep = 0usize;
     let mut corpus_ok: Vec<String> = vec![];
     let mut classes_of_case: Vec<Option<String>> = vec![];
+    let mut outcome_of_case: Vec<Option<String>> = vec![];
     for (k, (c, r)) in cases.iter().zip(results.iter()).enumerate() {
         let b = &bases[c.base];
         let gp = generic_path(&c.path);
@@ -966,6 +973,7 @@ pub fn main(args: &crate::Args) {
             unrep += 1;
             *hist.entry("unrepresentable (typed proof cannot hold the mutant)".into()).or_default() += 1;
             classes_of_case.push(None);
+            outcome_of_case.push(None);
             continue;
         }
         evaluations += 1;
@@ -974,6 +982,7 @@ pub fn main(args: &crate::Args) {
         }
         distinct.insert(format!("{}|{}|{}|{}", b.name, gp, c.m.name(), c.second.as_ref().map(|(p, m)| format!("{}:{}", generic_path(p), m.name())).unwrap_or_default()));
         let ol = outcome_line(&r.outcome, &b.honest);
+        outcome_of_case.push(Some(format!("{ol}{}", if let Outcome::Panic { file, line, .. } = &r.outcome { format!(" at {file}:{line}") } else { String::new() })));
         *hist.entry(format!("base:{}", b.name)).or_default() += 1;
         *hist.entry(format!("mutation:{}", c.m.kind())).or_default() += 1;
         *hist.entry(format!("outcome:{ol}")).or_default() += 1;
@@ -1079,7 +1088,19 @@ pub fn main(args: &crate::Args) {
             corpus_ok.push(file.clone());
         }
     }
+    let mut regressions_ok: Vec<String> = vec![];
+    let mut regressions_failed: Vec<Value> = vec![];
+    for (k, file, expect, id) in &corpus_expect_outcome {
+        let got = outcome_of_case.get(*k).cloned().flatten().unwrap_or_else(|| "unrepresentable".into());
+        if got == *expect {
+            regressions_ok.push(file.clone());
+        } else {
+            regressions_failed.push(json!({"file": file, "finding": id, "expected": expect, "got": got,
+                                            "replay": case_json(bases[cases[*k].base].name, &cases[*k])}));
+        }
+    }
     let report = json!({
+        "corpus_regressions_passed": regressions_ok, "corpus_regressions_failed": regressions_failed,
         "evaluations": evaluations, "distinct": distinct.len(), "hist": hist, "samples": samples, "violations": violations,
         "violation_classes": seen_class, "outcome_by_site": by_site, "enumerated_alterations": enumerated, "unrepresentable": unrep,
         "model_lines": lines, "pair_cases": pair_cases, "corpus_witnesses_reproduced": corpus_ok,
